@@ -4,7 +4,9 @@ from .. import cfggen, cfgrun, cfgstream, core, schemafam as F
 RULE = ("schema family with handler attributes on random subsets of items (schema, keys, multikeys, sections, "
         "multisections, all depths); accepted texts; handler maps complete / incomplete / with None / with case-variant "
         "duplicates; recording callables. Expected entries computed from the value tree and the text by the statement's "
-        "post-order rule; loads with '%import' lines AND overrides (ovimport.py): handler log of the override load = that of the hand-edited text = the model's. non-trivial = at least one handler entry; distinct by (schema, text)")
+        "post-order rule; loads with '%import' lines AND overrides (ovimport.py): handler log of the override load = that of the hand-edited text = the model's. Configurations with no entry at all (no handler attribute, or handlers only on items the text does "
+        "not instantiate): maps with colliding names refused, all others accepted, nothing called. non-trivial = at least one "
+        "handler entry, or a colliding map offered to an entry-less configuration; distinct by (schema, text)")
 
 import zcvdt  # noqa: E402
 
@@ -43,12 +45,109 @@ def expected_entries(elab, tyname, items, value):
     return entries
 
 
+def sparse_handler_cases(ctx):
+    """'every subset of items' includes the empty subset and small ones: schemas without any handler attribute, and schemas
+    with few of them (often only on items of section types that a text does not open) - loads with zero or very few entries"""
+    n_s, n_t = (60, 12) if ctx.thorough() else (6, 5)
+    out = []
+    for ph in (0.0, 0.12):
+        cs = cfgstream.gen_cases(ctx, n_s, n_t, handlers=True, nfaults=(0,), systematic=False, phandler=ph)
+        ctx.count("sparse-handler-cases:phandler=%s" % ph, len(cs))
+        out += cs
+    return out
+
+
+def zero_entry_maps(ctx, c, h):
+    """Configurations whose composite handler has NO entry (handler attributes on the empty subset of items, or only on items
+    of section types the text never opens): the statement's clauses about the map still hold - two supplied names that
+    normalise to the same key are refused with a configuration error, every other map (empty, extra names, None values) is
+    accepted, and no callable is ever called. Names: the schema's declared but uninstantiated handler names and free ones."""
+    import ZConfig
+    rng = ctx.rng
+    ctx.count("zero-entry-configurations")
+    ctx.count("zero-entry:" + ("handlers-declared-but-not-instantiated" if c.hnames else "no-handler-attribute"))
+    pool = sorted({n.lower(): n for n in ["apply", "on-change", "h1", "top-level"] + list(c.hnames)}.values())   # no two collide
+    # maps without colliding names (the empty one first): accepted, nothing to deliver
+    plain = [[]]
+    for _ in range(2):
+        picked = rng.sample(pool, rng.randint(1, min(3, len(pool))))
+        plain.append([(cfggen._case_variant(rng, n) if rng.random() < 0.5 else n, rng.random() < 0.25) for n in picked])
+    for m_items in plain:
+        rec = cfgrun.Recorder()
+        m = {nm: (None if is_none else rec.fn(nm)) for nm, is_none in m_items}
+        ctx.evaluations += 1
+        try:
+            h(m)
+        except Exception as e:
+            ctx.violate("a configuration without handler entries refused the handler map %r (no two names collide, no entry is "
+                        "unmapped): %s" % (list(m), type(e).__name__), dict(c.replay(), map=list(m), handler_len=0),
+                        signature="C16:zero-entries:map-refused")
+            continue
+        if rec.calls:
+            ctx.violate("a configuration without handler entries called %r" % [n for n, _ in rec.calls],
+                        dict(c.replay(), map=list(m), handler_len=0), signature="C16:zero-entries:called")
+    # case-variant duplicates: both orders, callable and None, with and without the canonical spelling, alone and among others
+    dup_maps = []
+    for first_none in (False, True):
+        dup = rng.choice(pool)
+        spell = sorted({dup.lower(), dup.upper(), dup.capitalize(), dup[:-1] + dup[-1].upper(),
+                        cfggen._case_variant(rng, dup), cfggen._case_variant(rng, dup)})
+        if len(spell) < 2:
+            continue
+        a_, b_ = rng.sample(spell, 2)
+        rec = cfgrun.Recorder()
+        m = {a_: None if first_none else rec.fn(a_), b_: rec.fn(b_)}
+        for n in pool:
+            if n != dup and rng.random() < 0.4:
+                m[n] = rec.fn(n)
+        keys = list(m)
+        rng.shuffle(keys)
+        m = {k: m[k] for k in keys}
+        dup_maps.append(m)
+        ctx.evaluations += 1
+        ctx.nontriv(("zero-entries-duplicate", id(c.sd), tuple(c.lines), first_none))
+        try:
+            h(m)
+            ctx.violate("two handler names that normalise to the same key (%r, %r) were accepted by a configuration without "
+                        "handler entries" % (a_, b_), dict(c.replay(), map=list(m), handler_len=0),
+                        signature="C16:zero-entries:duplicate-accepted")
+        except ZConfig.ConfigurationError:
+            if rec.calls:
+                ctx.violate("handlers were called before the duplicate names were refused", dict(c.replay(), map=list(m)),
+                            signature="C16:partial-call")
+        except Exception as e:
+            ctx.violate("duplicate handler names raised %s" % type(e).__name__, dict(c.replay(), map=list(m)),
+                        signature="C16:duplicate-raised")
+    # the model of CompositeHandler.__call__ on an empty entry list (driver op hcall): same verdict
+    if ctx.driver_ok:
+        all_maps = [{nm: (None if is_none else 0) for nm, is_none in mi} for mi in plain] + dup_maps
+        reqs = [[Atom("hcall"), [], [[nm, Atom("none") if v is None else i] for i, (nm, v) in enumerate(m.items())]]
+                for m in all_maps]
+        for m, ans in zip(all_maps, core.driver_batch(reqs)):
+            log = []
+            mm = {nm: (None if v is None else (lambda value, k=i: log.append(k))) for i, (nm, v) in enumerate(m.items())}
+            try:
+                h(mm)
+                got = ["ok", list(log)]
+            except ZConfig.ConfigurationError as e:
+                got = ["err", "notunique" if "not unique" in str(e) else "undefined" if "undefined" in str(e) else "other", list(log)]
+            except Exception as e:
+                got = ["exc", type(e).__name__, list(log)]
+            ctx.evaluations += 1
+            ctx.count("hcall-zero-entries:" + ":".join(got[:2] if got[0] != "ok" else got[:1]))
+            want = ["ok", [int(x) for x in ans[1]]] if ans[0] == "ok" else ["err", str(ans[1]), []]
+            if got != want:
+                ctx.disagree("handler-call", {"entries": [], "map": [[nm, None if v is None else i] for i, (nm, v) in enumerate(m.items())]},
+                             got, [str(x) for x in ans])
+
+
 def run(ctx):
     import ZConfig
     obligations, discharged, names = core.standard_prelude(ctx, ["ZCV.Props.C16"])
     n_s, n_t = (800, 30) if ctx.thorough() else (90, 16)
     rng = ctx.rng
     cases = cfgstream.gen_cases(ctx, n_s, n_t, handlers=True, nfaults=(0,), systematic=False)
+    cases += sparse_handler_cases(ctx)
     cfgstream.evaluate(ctx, cases)
     for c in cases:
         if c.out[0] != "ok":
@@ -93,6 +192,7 @@ def run(ctx):
                              expected=[(e[0], cfgrun.describe(e[1])) for e in exp]), signature="C16:order-or-values")
             continue
         if not names_needed:
+            zero_entry_maps(ctx, c, h)
             continue
         # None entries are skipped
         rec2 = cfgrun.Recorder()
